@@ -162,6 +162,19 @@ def gen_jobs(tier, seed, env_text):
     small1, wide, tiny2 = VU("small1"), VU("wide"), VU("tiny2")
     vpairs = list(itertools.combinations(small1, 2))
     add_types("unions over a three-level class hierarchy, every member first (exhaustive)", deep, base, rotations=True)
+    # unions whose members contain unions: an inner union must not disturb the treatment of the outer one
+    Ty = absmodel.T
+    INT_, STR_, NONE_, ANY_ = Ty("cls", "int"), Ty("cls", "str"), Ty("cls", "NoneType"), Ty("any")
+    U_ = lambda *ms: Ty("union", "", [], list(ms))  # noqa: E731
+    inners = [U_(Ty("set", "", [INT_]), INT_), U_(Ty("list", "", [STR_]), NONE_), U_(Ty("dict", "", [STR_, INT_]), Ty("list", "", [ANY_])),
+              U_(Ty("list", "", [INT_]), Ty("list", "", [ANY_]))]
+    wraps = [lambda x: Ty("dict", "", [INT_, x]), lambda x: Ty("list", "", [x]), lambda x: Ty("tuple", "", [x, INT_]),
+             lambda x: Ty("set", "", [INT_]) if False else Ty("iterator", "", [x])]
+    empties = [Ty("set", "", [ANY_]), Ty("list", "", [ANY_]), Ty("dict", "", [ANY_, ANY_])]
+    nested = [U_(w(i), e) for w in wraps for i in inners for e in empties]
+    nested += [U_(w(i), e, INT_) for w in wraps[:2] for i in inners[:2] for e in empties]
+    add_types("unions whose members contain unions, next to an empty container of another / the same kind, every member first",
+              nested, base, rotations=True)
     if tier == "quick":
         add_types("t1small: atoms, containers, all 2-unions (exhaustive)", t1small, base)
         add_types("t1small x all ordered pairs of rewriters (sampled types)", rng.sample(t1small, 300), pairs)
